@@ -1199,13 +1199,39 @@ def oracle_hunt3(ctx):
     inp = InputObjectType("B", [InputField("b", b64, default_value="in field")])
     _defaults_report(ctx, "default-serializing-scalar", Schema(ObjectType("Query", [Field("f", Int, [
         Argument("top", b64, default_value="hello"), Argument("list", ListType(b64), default_value=["hello", "x y"]),
-        Argument("single", ListType(b64), default_value="hello"), Argument("obj", inp, default_value={"b": "hello"})])])), d0)
+        Argument("nested", ListType(ListType(b64)), default_value=[["hello"], []]), Argument("obj", inp, default_value={"b": "hello"})])])), d0)
     # I15: a dict at a list position is ONE item
     js = ScalarType("Json", serialize=lambda v: v, parse=lambda v: v, parse_literal=L.typed_parse_literal)
     pt = InputObjectType("Point", [InputField("x", Int), InputField("y", Int)])
+    # (a Python default is the COERCED value: since 7cadcb0 `Schema.validate()` refuses a bare item under a list type, so
+    #  the conforming spelling is a LIST holding the dict; the bare spelling is only followed when the schema validates)
     _defaults_report(ctx, "default-dict-at-list-position", Schema(ObjectType("Query", [Field("f", Int, [
+        Argument("tags", ListType(js), default_value=[{"a": 1}]), Argument("path", ListType(pt), default_value=[{"x": 1, "y": 2}]),
+        Argument("nested", ListType(ListType(pt)), default_value=[[{"x": 1}], []])])])), d0)
+    from py_gql.exc import SchemaError
+    bare = Schema(ObjectType("Query", [Field("f", Int, [
         Argument("tags", ListType(js), default_value={"a": 1}), Argument("path", ListType(pt), default_value={"x": 1, "y": 2}),
-        Argument("nested", ListType(ListType(pt)), default_value=[{"x": 1}])])])), d0)
+        Argument("single", ListType(b64), default_value="hello")])]))
+    try:
+        bare.validate()
+    except SchemaError:
+        ctx.stat("hunt3:bare-item-at-list-position:rejected-at-validation")
+    except Exception as e:  # noqa
+        ctx.stat("hunt3:bare-item-at-list-position:validate-raises-" + type(e).__name__)
+    else:
+        _defaults_report(ctx, "default-bare-item-at-list-position", bare, d0)
+    # I15 through the utility itself: a mapping at a list position is one item, never the list of its keys
+    from py_gql.lang import print_ast
+    from py_gql.utilities import ast_node_from_value
+    for t, v, want in ((ListType(js), {"a": 1}, "{a: 1}"), (ListType(pt), {"x": 1, "y": 2}, "{x: 1, y: 2}")):
+        ctx.count()
+        try:
+            got = print_ast(ast_node_from_value(v, t))
+        except Exception as e:  # noqa
+            got = "raises " + type(e).__name__
+        if got != want:
+            ctx.fail("default-dict-at-list-position:utility:" + ("raises" if got.startswith("raises") else "iterates-keys"),
+                     "ast_node_from_value(%r, %s) prints %r, expected %r (a mapping is one item)" % (v, t, got, want), d0)
     # I16: non-finite floats have no literal spelling: a field error, never `inf` / `nan` as text
     _defaults_report(ctx, "default-non-finite-float", Schema(ObjectType("Query", [Field("f", Int, [
         Argument("a", js, default_value=float("-inf")), Argument("b", js, default_value={"ratio": float("inf")}),
